@@ -244,6 +244,19 @@ pub fn run_w_history_in(ops: &[WOp], seq: &[usize], cache: &mut RefCache, di: us
                         Ok(back) => return (Some(("lint-json-round-trip-changed".into(), json!({"step": si, "before": js, "after": back.to_json()}))), steps, interesting),
                         Err(e) => return (Some(("lint-json-round-trip-failed".into(), json!({"step": si, "json": js, "error": e}))), steps, interesting),
                     }
+                    for (k, s) in l.suggestions().iter().enumerate() {
+                        // accessors agree with the suggestion they wrap
+                        use harper_core::linting::Suggestion as CS;
+                        let (want_kind, want_text) = match inner.suggestions.get(k) {
+                            Some(CS::Remove) => ("Remove", String::new()),
+                            Some(CS::ReplaceWith(c)) => ("Replace", c.iter().collect::<String>()),
+                            Some(CS::InsertAfter(c)) => ("InsertAfter", c.iter().collect::<String>()),
+                            None => ("?", String::new()),
+                        };
+                        if format!("{:?}", s.kind()) != want_kind || s.get_replacement_text() != want_text {
+                            return (Some(("suggestion-accessors-disagree".into(), json!({"step": si, "kind": format!("{:?}", s.kind()), "text": s.get_replacement_text(), "want": [want_kind, want_text]}))), steps, interesting);
+                        }
+                    }
                     for s in l.suggestions() {
                         let sj = s.to_json();
                         match harper_wasm::Suggestion::from_json(sj.clone()) {
@@ -360,6 +373,9 @@ pub fn run_w_history_in(ops: &[WOp], seq: &[usize], cache: &mut RefCache, di: us
                 real.import_words(ws.clone());
                 shadow.import_words(ws.clone());
                 words.extend(ws);
+                if format!("{:?}", real.get_dialect()) != format!("{:?}", dialect) {
+                    return (Some(("dialect-changed-by-import".into(), json!({"step": si, "now": format!("{:?}", real.get_dialect())}))), steps, true);
+                }
                 // export must list what was imported (modulo the case collision)
                 let exp: BTreeSet<String> = real.export_words().into_iter().collect();
                 if has_case_collision(&words).is_none() && exp != words {
